@@ -81,7 +81,7 @@ def check(pid, tier, lines, gen_counts):
     if pid == "C16":
         _need(out, "symbol sizes", len(pref("text:")), 40)
     if pid == "C18":
-        _need(out, "default frames: (frame shape, margin 0..16) sweeps over all 40 versions", len([k for k in pref("frame:") if int(k.split(":")[2]) <= 16]), 51)
+        _need(out, "default frames: (frame shape, margin 0..16) sweeps over all 40 versions", len({tuple(k.split(":")[1:3]) for k in pref("frame:") if int(k.split(":")[2]) <= 16}), 51)
     if pid == "C19":
         _need(out, "TLC-exported fault behaviours replayed", len({k.split(":", 2)[2] for k in pref("file:")}), gen_counts.get("fileio", 0))
     if pid == "C19":
